@@ -411,6 +411,9 @@ def run_scenario(sc: dict) -> list:
     else:
         storage = optuna.storages.InMemoryStorage()
         fresh = None
+    # GA samplers read their cached parents by trial id as a list position (finding K9, recorded under C09): with another
+    # study in the storage they crash before suggesting anything, so they keep a storage of their own here
+    common.decoy(storage, 0 if sc["sampler"] in ("nsga2", "nsga3") else sc["seed"] % 3)
     study = optuna.create_study(sampler=_sampler(optuna, sc, od), storage=storage, study_name="s")
     rng = random.Random(sc["seed"] ^ 0x5EED)
     params = sc["params"]
